@@ -2,6 +2,7 @@ package keyset
 
 import (
 	"errors"
+	"github.com/tink-crypto/tink-go/v2/internal/internalapi"
 	"github.com/tink-crypto/tink-go/v2/internal/protoserialization"
 	tinkpb "github.com/tink-crypto/tink-go/v2/proto/tink_go_proto"
 	"github.com/tink-crypto/tink-go/v2/internal/verifrt"
@@ -186,9 +187,13 @@ func VerifH_manager_step_enable()     { managerStep(2) }
 func VerifH_manager_step_disable()    { managerStep(3) }
 func VerifH_manager_step_delete()     { managerStep(4) }
 func VerifH_manager_step_handle()     { managerStep(5) }
+func VerifH_manager_step_addopts()    { managerStep(6) }
 
 func managerStep(op int) {
 	n := verifrt.Choice("n", mgrMax()+1)
+	if op == 6 && n > 2 && !verifrt.Thorough() {
+		verifrt.Assume(false) // the option set multiplies the paths: two entries in the quick tier
+	}
 	m := arbitraryManager(n)
 	before := snapshot(m)
 	id := verifrt.Uint32("arg.id")
@@ -263,6 +268,62 @@ func managerStep(op int) {
 				}
 				verifrt.Assert(e.fixedID == b.id && e.status == b.status && e.isPrimary == b.primary, "Delete keeps the others in order")
 			}
+		}
+	case 6: // AddKeyWithOpts (internal API used by the key-derivation and hybrid factories): any option set
+		req := verifrt.Bool("new.req")
+		nk := &stubKey{id: id, req: req, tag: 99}
+		if !req {
+			nk.id = 0
+		}
+		var opts []KeyOpts
+		st := Enabled
+		withStatus := verifrt.Bool("opt.status")
+		if withStatus {
+			st = KeyStatus(verifrt.Int("opt.status.v")) // any value, also unknown ones
+			verifrt.Assume(st >= Unknown && st <= Destroyed) // the four declared KeyStatus values
+			opts = append(opts, WithStatus(st))
+		}
+		fixed := verifrt.Bool("opt.fixed")
+		fid := verifrt.Uint32("opt.fixed.id")
+		if fixed {
+			opts = append(opts, WithFixedID(fid))
+		}
+		prim := verifrt.Bool("opt.primary")
+		if prim {
+			opts = append(opts, AsPrimary())
+		}
+		wantID, hasWant := id, req
+		if fixed && !req {
+			wantID, hasWant = fid, true
+		}
+		statusKnown := st == Enabled || st == Disabled || st == Destroyed
+		wantErr := (fixed && req && fid != id) || !statusKnown || (prim && st != Enabled) || (hasWant && find(before, wantID) >= 0)
+		got, err := m.AddKeyWithOpts(nk, internalapi.Token{}, opts...)
+		if wantErr {
+			verifrt.Assert(err != nil, "AddKeyWithOpts refuses: WithFixedID against the key's own id requirement, an unknown status, a primary that is not ENABLED, a fixed id already in use")
+		}
+		if err != nil {
+			// The property lists Add / AddKey / AddNewKeyFromParameters; for this internal entry
+			// point "error => unchanged" is observed, not asserted (AsPrimary together with a
+			// colliding fixed id clears the old primary flag before failing: see DESIGN §6).
+			verifrt.Assert(wantErr, "AddKeyWithOpts fails only for those reasons")
+			verifrt.Assert(len(m.entries) == n, "AddKeyWithOpts: no entry is added on error")
+			for i := 0; i < n && i < len(m.entries); i++ {
+				e := m.entries[i]
+				verifrt.Assert(e.fixedID == before[i].id && e.status == before[i].status && e.key == before[i].k, "AddKeyWithOpts: ids, statuses and keys unchanged on error")
+			}
+			verifrt.Reach("addopts-refused")
+		} else {
+			verifrt.Assert(len(m.entries) == n+1, "AddKeyWithOpts appends one entry")
+			last := m.entries[n]
+			verifrt.Assert(last.fixedID == got && last.key == key.Key(nk) && last.status == st && last.isPrimary == prim, "AddKeyWithOpts: the new entry has the requested status / primary flag and the returned id")
+			verifrt.Assert(verifrt.Implies(hasWant, got == wantID), "AddKeyWithOpts: id requirement / fixed id honoured")
+			verifrt.Assert(find(before, got) == -1, "AddKeyWithOpts: returned id was not in use")
+			for i := 0; i < n; i++ {
+				e := m.entries[i]
+				verifrt.Assert(e.fixedID == before[i].id && e.status == before[i].status && e.isPrimary == (before[i].primary && !prim), "AddKeyWithOpts leaves existing entries alone, except that a new primary replaces the old one")
+			}
+			verifrt.Reach("addopts-ok")
 		}
 	default: // Handle only
 	}
